@@ -16,7 +16,8 @@ PLAN = [
     ("jobs",         480,   18000),
     ("procs",        320,   12000),
     ("cancel",       240,   9000),
-    ("cancelkill",     8,     288),
+    ("cancelkill",    20,     400),
+    ("releasekill",   12,     240),
     ("cancelcompl",   48,    1800),
     ("faults",       160,   6000),
     ("release",      240,   9000),
@@ -27,7 +28,7 @@ PLAN = [
 SUM_KEYS = ["cases", "events", "jobs_submitted", "jobs_executed_once", "launches", "real_children", "output_bytes", "output_callbacks",
             "status_Succeeded", "status_Failed", "status_Cancelled", "spawn_error_launches", "spawn_error_failed", "fd_exhaustion_failures",
             "children_not_spawned", "lane_released_observed", "cases_with_cancel", "children_alive_at_cancel", "launches_after_cancel",
-            "launches_after_cancel_cancelled", "hanging_children_interrupted_and_reaped", "hanging_children_needing_sigkill_reaped",
+            "launches_after_cancel_cancelled", "hanging_children_interrupted_and_reaped", "hanging_children_needing_sigkill_reaped", "released_children_needing_sigkill_reaped", "escalation_thread_starts_delayed", "released_children_needing_sigkill_alive_when_the_queue_is_destroyed_after_cancel",
             "env_children", "storm_signals", "cases_reaching_lane_limit", "exit_code_raw_wait_status", "exit_code_decoded",
             "output_prefix_of_cancelled_child", "injected_management_errors", "suppressed_duplicate_violations"]
 
@@ -257,7 +258,22 @@ def run_range(binp, flavor, profile, seed, lo, hi, child, sd, thorough, tag, wat
                 recs += hang[:1]  # the re-run died another way: keep the hang witness, the crash is reported on the way
                 events.append(("crash", dict(cmd=" ".join(one), rc=rc2, stderr=err2.decode("utf-8", "replace"), case=last)))
             else:
-                events.append(("watchdog-once", dict(cmd=" ".join(one), case=last)))
+                # the case passes alone. A hang may depend on what the cases before it left behind in the process (thread start-up
+                # latency, allocator state): repeat the very same piece up to that case; a second hang at the same case is believed
+                again = (wrap or []) + [binp, "--profile", profile, "--seed", str(seed), "--from", str(lo), "--count", str(last - lo + 1), "--child", child, "--dir", d + "b",
+                                        "--watchdog-ms", str(watchdog_ms)] + (["--thorough"] if thorough else []) + (extra or [])
+                rc3, out3, err3, to3 = run_harness(again, 1200, env, child, wrapped=bool(wrap))
+                m3 = re.findall(r"@case (\d+)", err3.decode("utf-8", "replace"))
+                if rc3 == 3 and m3 and int(m3[-1]) == last:
+                    for h in hang[:1]:
+                        if isinstance(h.get("witness"), dict):
+                            h["witness"]["cmd"] = " ".join(again)
+                            h["witness"]["note"] = "hangs in this piece twice at the same case; the case alone passes"
+                    recs += hang[:1]
+                    with _HANG_LOCK:
+                        _HANGS_CONFIRMED.add(hkey)
+                else:
+                    events.append(("watchdog-once", dict(cmd=" ".join(one), case=last)))
                 recs += [r for r in vlib.parse_jsonl(out2) if "viol" in r]
         else:
             recs += rr
@@ -316,7 +332,7 @@ def run(tier, replay):
                 tasks.append(dict(flavor=fl, profile="inject", lo=k * 10, hi=k * 10 + (6 if th else 2),
                                   wrap=["strace", "-f", "-qq", "-o", "/dev/null", "-e", "trace=poll", "-e", "inject=poll:error=ENOMEM:when=%d" % k], extra=None))
         # longest first
-        weight = {"cancelkill": 9, "storm": 5, "jobs": 4, "procs": 4, "inject": 3}
+        weight = {"cancelkill": 9, "releasekill": 9, "storm": 5, "jobs": 4, "procs": 4, "inject": 3}
         tasks.sort(key=lambda t: -weight.get(t["profile"], 1) * (t["hi"] - t["lo"]) * (3 if t["flavor"] == "tsan" else 1))
 
         def one(t):
